@@ -1424,6 +1424,10 @@ EXTERNAL_CLASSES = {
 
 
 def external_attr(ex, modname, attr):
+    if modname == "string" and attr in ("digits", "ascii_letters", "ascii_lowercase", "ascii_uppercase", "punctuation", "whitespace"):
+        import string
+
+        return getattr(string, attr)
     if modname == "sys" and attr == "intern":
         return BuiltinRef("sys.intern")
     if modname == "typing" and attr == "cast":
@@ -1469,6 +1473,8 @@ def iter_values(ex, st, ref):
         return list(v.items.keys())
     if isinstance(v, str):
         return list(v)
+    if isinstance(v, SV) and v.sort == "str" and v.char:
+        return [v]
     if isinstance(v, ClassRef) and is_enum(ex, v):
         return list(enum_members(ex, v).values())
     if isinstance(v, Kwargs) and not v.open:
